@@ -82,3 +82,15 @@ def run_amp(ctx, pid, ns, max_m):
     ctx.sample({'mc_amp_input': {'mask': [1, 1, 0, 1, 1, 1][:ns], 'side_extrema': [0, 2, 5], 'threshold': '1/2', 'min_n_cycles': 1},
                 'space': 'all masks over %d samples x all tilings into cycles x thresholds {0,1/3,1/2,1} x min_n_cycles 0..%d' % (ns, max_m)})
     return res
+
+
+def run_edges(ctx, pid, nr, pmax=2):
+    tab, n = ixf.edges_table(nr, pmax)
+    res = _run(ctx, pid, 'MC_Edges', 'MC_Edges(rows=%d,period<=%d)' % (nr, pmax), {'NR': nr, 'PMax': pmax}, ['InvGrow', 'InvOnlyEdges', 'InvOneSidedLarger'], tab, n,
+               lambda d: 'recompute_edges on volt_rise=%s volt_decay=%s period=%s blocked=%s, consistency thresholds %s, min_n_cycles=%s, peak-centred=%s: model old labels %s, '
+                         'edited amp_consistency %s, period_consistency %s, new labels %s; implementation (ok, old, new, amp.., period..) %s'
+               % (d[3], d[4], d[5], [int(x) for x in d[6]], d[7], d[8], d[9], d[10], d[11], d[12], d[13], d[14]))
+    ctx.nontrivial += n
+    ctx.sample({'mc_edges_input': {'volt_rise': [2, 2, 1, 2][:nr], 'volt_decay': [2, 2, 2, 1][:nr], 'period': [1, 1, 2, 1][:nr], 'thresholds': '1/2', 'min_n_cycles': 1},
+                'space': 'all tables of %d cycles (rise, decay, period in 1..2, interior cycles optionally blocked) x thresholds {1/3,1/2} x min_n_cycles {1,2} x centring' % nr})
+    return res
